@@ -11,6 +11,7 @@ META = {
                    ' R08.9 the token stream ends only where the text ends (an unterminated literal is not the end of the program). R08.10 the program ends only where the tokens end (parse answers Ok only at the end-of-input token).',
     'not_decided': ['token-stream equality for all inputs as an input-output relation', "Unicode classification (char::is_alphabetic) is std's"],
 }
+META['explanation'] += ' R08.11 no branch of the parser (the decoding of a literal included) depends on tokenizer state besides the tokens. R08.12 no single byte of a text becomes a character unless tested to be ASCII.'
 
 KEYWORDS = ['als', 'anders', 'antwoord', 'functie', 'zolang', 'stel', 'ja', 'nee', 'stop', 'volgende']
 TWO_CHAR = ['==', '!=', '<=', '>=', '&&', '||']
